@@ -35,14 +35,14 @@ type Map struct {
 	o vs.SyncObj
 }
 
-func (m *Map) Load(k any) (any, bool)               { vs.SyncOp(&m.o); return m.m.Load(k) }
-func (m *Map) Store(k, v any)                       { vs.SyncOp(&m.o); m.m.Store(k, v) }
-func (m *Map) LoadOrStore(k, v any) (any, bool)     { vs.SyncOp(&m.o); return m.m.LoadOrStore(k, v) }
-func (m *Map) LoadAndDelete(k any) (any, bool)      { vs.SyncOp(&m.o); return m.m.LoadAndDelete(k) }
-func (m *Map) Delete(k any)                         { vs.SyncOp(&m.o); m.m.Delete(k) }
-func (m *Map) Swap(k, v any) (any, bool)            { vs.SyncOp(&m.o); return m.m.Swap(k, v) }
-func (m *Map) CompareAndSwap(k, o, n any) bool      { vs.SyncOp(&m.o); return m.m.CompareAndSwap(k, o, n) }
-func (m *Map) CompareAndDelete(k, o any) bool       { vs.SyncOp(&m.o); return m.m.CompareAndDelete(k, o) }
+func (m *Map) Load(k any) (any, bool)           { vs.SyncOp(&m.o); return m.m.Load(k) }
+func (m *Map) Store(k, v any)                   { vs.SyncOp(&m.o); m.m.Store(k, v) }
+func (m *Map) LoadOrStore(k, v any) (any, bool) { vs.SyncOp(&m.o); return m.m.LoadOrStore(k, v) }
+func (m *Map) LoadAndDelete(k any) (any, bool)  { vs.SyncOp(&m.o); return m.m.LoadAndDelete(k) }
+func (m *Map) Delete(k any)                     { vs.SyncOp(&m.o); m.m.Delete(k) }
+func (m *Map) Swap(k, v any) (any, bool)        { vs.SyncOp(&m.o); return m.m.Swap(k, v) }
+func (m *Map) CompareAndSwap(k, o, n any) bool  { vs.SyncOp(&m.o); return m.m.CompareAndSwap(k, o, n) }
+func (m *Map) CompareAndDelete(k, o any) bool   { vs.SyncOp(&m.o); return m.m.CompareAndDelete(k, o) }
 func (m *Map) Range(f func(k, v any) bool) {
 	vs.SyncOp(&m.o)
 	m.m.Range(func(k, v any) bool { r := f(k, v); vs.SyncOp(&m.o); return r })
